@@ -382,5 +382,6 @@ pub fn main(tier: Option<&str>) {
         );
     }
     crate::driver_rig::c01_differential(&run);
+    crate::driver_rig::c01_flow_differential(&run);
     run.finish();
 }
